@@ -940,3 +940,40 @@ Proof. exact mn_compare_pin. Qed.
 Print Assumptions C03_strip_brackets_current.
 Print Assumptions C03_useful_current.
 Print Assumptions C03_compare_current.
+
+(* ---- the writer's header-line layout is the Python's ----------------------------------------------
+   order_of, format_item and the two column widths of Model/Writer.section_lines equal the definitions
+   re-translated on every run from writer.get_section_order_function, get_formatter_function and
+   get_section_widths (and HeaderItem.__getitem__, which get_section_widths calls); item_of shows a model
+   item as the Python object the translated functions read (unit / descr are str, the value is any
+   header value, str(value) = vstr).  None in C03_order_current: (version, section) is not a key of
+   ORDER_DEFINITIONS (KeyError). *)
+Require Import FuncsPinStandardize FuncsPinWriter.
+Theorem C03_order_current : forall v sect m,
+  option_map order_str (order_of v sect m) = py_get_section_order_function sect v order_definitions m.
+Proof. exact order_of_pin. Qed.
+Theorem C03_format_current : forall fstr fzero o lw mw it,
+  Some (format_item fstr o lw mw it)
+  = py_get_formatter_function (hval_ops fstr fzero) (order_str o) (Some (Z.of_nat lw)) (Some (Z.of_nat mw)) (item_of it).
+Proof. exact format_item_pin. Qed.
+Theorem C03_widths_current : forall fstr fzero (ordf : list N -> item_order) items,
+  py_get_section_widths (hval_ops fstr fzero) (List.map item_of items) (fun m => order_str (ordf m))
+  = Some (match items with
+          | [] => [(key_left_width, None); (key_middle_width, None)]
+          | _ => [(key_left_width, Some (Z.of_nat (widths_left items)));
+                  (key_middle_width, Some (Z.of_nat (widths_middle fstr (fun it => ordf (i_orig it)) items)))]
+          end).
+Proof. exact widths_pin. Qed.
+Theorem C03_layout_composition_current : forall fstr v sect items,
+  section_lines fstr v sect items =
+  match lookup_order_entry v sect order_definitions with
+  | None => None
+  | Some _ =>
+      let ord it := match order_of v sect (i_orig it) with Some o => o | None => ValueDescr end in
+      Some (List.map (fun it => format_item fstr (ord it) (widths_left items) (widths_middle fstr ord items) it) items)
+  end.
+Proof. exact section_lines_unfold. Qed.
+Print Assumptions C03_order_current.
+Print Assumptions C03_format_current.
+Print Assumptions C03_widths_current.
+Print Assumptions C03_layout_composition_current.
